@@ -452,7 +452,38 @@ def r9(ctx):
     ctx.floor(R, 4)
 
 
+def r10(ctx):
+    R = "C12-R10"
+    ctx.rule(R, "refusal needs a host that takes its mail: in this implementation a connect is refused when the SYN is handed to the destination "
+                "host and finds no bind (the SYN, and with it the one-shot the connector waits on, is dropped). Sim::step must therefore take the "
+                "due messages off the links for *every* host it visits, whether or not the host's software is still running - every traversal of "
+                "a partition component of the hosts in Sim::step calls Topology::deliver_messages on every iteration. A SYN for a host whose "
+                "software has returned (its listener dropped with it) otherwise waits on the link for ever and the connect hangs")
+    from . import C05
+    b = ctx.body(R, C05.STEP)
+    if not b:
+        return
+    parts = list(b.calls(re.compile(r"^std::iter::Iterator::partition$|Iterator>::partition$")))
+    if not parts:
+        ctx.inst(R, "step:partition", False, b.span, "Sim::step no longer partitions the hosts: re-derive")
+        ctx.floor(R, 1)
+        return
+    pl = parts[0][1]["d"]["l"]
+    n = 0
+    for v in C05.visits(ctx, b, pl):
+        n += 1
+        pc = v.per_iteration(re.compile(r"^turmoil::top::Topology::deliver_messages$"))
+        ok = pc is not None and pc[0] >= 1
+        ctx.inst(R, f"step:component-{v.comp}:takes-due-messages", ok, v.site, f"due messages are delivered on every iteration {pc}" if ok else
+                 f"the traversal of partition component {v.comp} ({'running' if v.comp == 0 else 'stopped'} hosts) in Sim::step never calls Topology::deliver_messages {pc}: "
+                 "messages for a host whose software has returned stay on the link for ever - a connect to it (its listener was dropped with the software, or nobody ever "
+                 "listened) hangs instead of failing with ConnectionRefused")
+    ctx.inst(R, "step:traversals-found", n >= 2, b.span, f"{n} host traversals analysed" if n >= 2 else f"only {n} host traversal(s) found in Sim::step: re-derive")
+    ctx.floor(R, 3)
+
+
 def run(ctx):
+    r10(ctx)
     r9(ctx)
     r8(ctx)
     r7(ctx)
